@@ -36,7 +36,8 @@ ASSUMPTIONS = [
 
 TOP = 0xFFFFF000
 OPS = ['set', 'set', 'get', 'set_rmode', 'set_rmode', 'get_rmode', 'set_spsr', 'get_spsr', 'mov_imm', 'mov_reg', 'mov_reg', 'msr_spsr', 'mrs_spsr',
-       'cps', 'cps', 'cps', 'msr_cpsr_c', 'entry_api', 'entry_api', 'svc', 'udf', 'irq', 'fiq', 'ret', 'ret', 'stm_user', 'ldm_user', 'srs', 'smc']
+       'cps', 'cps', 'cps', 'msr_cpsr_c', 'entry_api', 'entry_api', 'svc', 'udf', 'irq', 'fiq', 'ret', 'ret', 'stm_user', 'ldm_user', 'srs', 'smc',
+       'sec_state', 'sec_state']
 
 
 def plan(tier, seed):
@@ -229,7 +230,17 @@ class Walk:
             tgt = BK.SVC
         bank_key = '%s|%x|%x' % (k, cur, tgt if k in ('set_rmode', 'get_rmode', 'cps', 'srs', 'entry_api') else cur)
         ok = True
-        if k == 'set':
+        if self.sec and not self.secure() and (r.nsacr.value >> 19) & 1:
+            # NSACR.RFR=1 makes the FIQ bank UNPREDICTABLE territory in Non-secure state: the (Secure) firmware of these histories only keeps it set
+            # while it runs in Secure state, where banking is unaffected by it
+            r.nsacr.value &= ~(1 << 19)
+        if k == 'sec_state':
+            # Monitor mode (always Secure) rewrites SCR.NS and NSACR.RFR: no effect on which physical register a (register, mode) pair names
+            if not self.sec or cur != BK.MON:
+                return 'skip'
+            r.scr.value = (r.scr.value & ~1) | op['ns']
+            r.nsacr.value = (r.nsacr.value & ~(1 << 19)) | (op['imm'] & 1) << 19
+        elif k == 'set':
             r.set(n, op['v'])
             m.set(n, cur, op['v'])
             self.named.add(BK.phys(n, cur))
